@@ -93,8 +93,8 @@ def bad (msg : String) : J := .obj [("bad_request", .str msg)]
 def perDna (W : Nat → Bool) (t : Tmpl) (d : DNA) : J :=
   let dec := decode W t d
   .obj [("dna", dnaToJ d),
-        ("valid", .bool (validG false (dnaSpec W t) d)),
-        ("strict", .bool (validG true (dnaSpec W t) d)),
+        ("valid", .bool (validG (dnaSpec W t) d)),
+        ("strict", .bool (validG (dnaSpec W t) d)),
         ("dec", resT dec),
         ("enc", match dec with
           | .ok v => resD (encode W t v)
@@ -104,7 +104,7 @@ def perValue (W : Nat → Bool) (t : Tmpl) (v : Tmpl) : J :=
   let enc := encode W t v
   .obj [("enc", resD enc),
         ("valid", match enc with
-          | .ok d => .bool (validG false (dnaSpec W t) d)
+          | .ok d => .bool (validG (dnaSpec W t) d)
           | .error _ => .null),
         ("redec", match enc with
           | .ok d => resT (decode W t d)
